@@ -170,10 +170,7 @@ pub fn gen_plan(env: &Env, seed: u64, thorough: bool) -> FPlan {
         if rng.pct(70) {
             opts |= PHON_SUG | FIXED_SUG;
         }
-        if layout == LayoutKind::Probhat {
-            // the known third-party encoder panic (C02 finding) would abort the child
-            opts &= !ANSI;
-        }
+
         let data = match rng.weighted(&[2, 68, 30]) {
             0 => DataKind::Full,
             1 => DataKind::Small,
@@ -225,7 +222,12 @@ pub fn gen_plan(env: &Env, seed: u64, thorough: bool) -> FPlan {
                     ops.push(FOp::SugFree { s: s as u8 });
                 }
                 sug_live[s] = true;
-                let m = if rng.pct(80) { 0 } else { rng.next_u64() as u8 & 3 };
+                let mut m = if rng.pct(80) { 0 } else { rng.next_u64() as u8 & 3 };
+                if sp.has(ANSI) && !sp.is_phonetic() {
+                    // the known third-party encoder panic (C02 finding: ANSI + VOCALIC RR sign,
+                    // which both fixed layouts have on an AltGr plane) would abort the child
+                    m &= 1;
+                }
                 ops.push(FOp::Key { x: x as u8, key, m, sel: 0, s: s as u8 });
             }
             1 if !live_ctx.is_empty() => {
@@ -309,14 +311,9 @@ pub fn gen_plan(env: &Env, seed: u64, thorough: bool) -> FPlan {
                 let c = *rng.pick(&live_cfg);
                 let bit = rng.below(11) as u8;
                 let on = rng.coin();
-                let mut sp = cfg_spec[c].unwrap().with(1 << bit, on);
-                if sp.layout == LayoutKind::Probhat {
-                    sp.opts &= !ANSI;
-                }
-                if sp == cfg_spec[c].unwrap().with(1 << bit, on) {
-                    cfg_spec[c] = Some(sp);
-                    ops.push(FOp::ConfigSet { c: c as u8, bit, on });
-                }
+                let sp = cfg_spec[c].unwrap().with(1 << bit, on);
+                cfg_spec[c] = Some(sp);
+                ops.push(FOp::ConfigSet { c: c as u8, bit, on });
             }
             12 | 13 if !live_cfg.is_empty() && rng.pct(35) => {
                 ops.push(FOp::ConfigBadPath { c: *rng.pick(&live_cfg) as u8, layout: rng.coin() });
